@@ -426,8 +426,31 @@ func (f *frame) checkInvariants(l *loopInfo, st *State, kind string) {
 	sc := f.specCtx(st, vc.oldState)
 	sc.locals = st.names
 	f.bindParams(sc)
+	// a contract parameter name that is also a reassigned local would silently
+	// denote the entry value in an invariant: demand distinct names
+	for name, pv := range sc.vars {
+		if lv, ok := st.names[name]; ok && !sameVal(pv, lv) {
+			names := map[string]bool{name: true}
+			for _, inv := range l.spec.Invariants {
+				if mentions(inv.Expr, names) {
+					unsup("loop invariant of %s mentions %q, which is both a contract parameter (entry value) and a reassigned local: rename the parameter in the contract header (e.g. %s0)", f.fn.Name(), name, name)
+				}
+			}
+			if l.spec.Decreases != nil && mentions(l.spec.Decreases.Expr, names) {
+				unsup("loop variant of %s mentions %q, which is both a contract parameter and a reassigned local: rename the parameter in the contract header", f.fn.Name(), name)
+			}
+		}
+	}
 	for _, inv := range l.spec.Invariants {
 		g := sc.evalBool(inv.Expr)
+		if call, ok := inv.Expr.(*CCall); ok && call.F == "frame" && strings.HasPrefix(g, "(and ") {
+			// one obligation per heap variable keeps the queries small
+			for k, part := range splitArgs(g)[1:] {
+				vc.oblige(st, fmt.Sprintf("%s.%s.%s.frame%d", kind, f.loopName(l), inv.Name, k), part,
+					fmt.Sprintf("loop invariant %s (%s): frame(), part %d", inv.Name, kind, k), l.pos, false)
+			}
+			continue
+		}
 		vc.oblige(st, fmt.Sprintf("%s.%s.%s", kind, f.loopName(l), inv.Name), g,
 			fmt.Sprintf("loop invariant %s (%s): %s", inv.Name, kind, inv.Src), l.pos, false)
 	}
@@ -467,6 +490,9 @@ func (f *frame) bindParams(sc *specCtx) {
 func (f *frame) cutHeader(n *vnode, st *State) {
 	vc := f.vc
 	l := n.cut
+	// 0. what the loop may write (also registers those heap variables, so that
+	// frame() invariants cover them)
+	hv, all, allocs := f.loopWrites(l)
 	// 1. invariants hold on entry
 	f.checkInvariants(l, st, "inv.entry")
 	// 2. havoc loop-modified state
@@ -492,7 +518,6 @@ func (f *frame) cutHeader(n *vnode, st *State) {
 			st.names[phi.Comment] = nv
 		}
 	}
-	hv, all, allocs := f.loopWrites(l)
 	if all {
 		vc.havocAll(st)
 	} else {
@@ -517,7 +542,7 @@ func (f *frame) cutHeader(n *vnode, st *State) {
 			if !ok {
 				continue
 			}
-			conds := append([]string{"(< (rid r) " + st.alloc + ")"}, excl...)
+			conds := append([]string{"(< (rid r) " + st.alloc + ")", "(not (= r nil))"}, excl...)
 			vc.assume("(forall ((r Ref)) (! (=> " + and(conds...) + " (= (select " + vc.heapGet(st, h) + " r) (select " + before + " r))) :pattern ((select " + vc.heapGet(st, h) + " r))))")
 		}
 		if allocs {
